@@ -21,13 +21,6 @@ def GitCfg.isEnable : Cmd → Bool
 def GitCfg.owned (k : String) : Bool :=
   ownKeys.contains k || k.startsWith "diff.jupyternotebook." || k.startsWith "merge.jupyternotebook."
 
-/-- last write wins -/
-def lastWrite (k : String) : List (String × String) → Option String
-  | [] => none
-  | (a, v) :: rest => match lastWrite k rest with
-      | some v' => some v'
-      | none => if a = k then some v else none
-
 theorem lookup_applyWrites (ws : List (String × String)) (cfg : List (String × String)) (k : String) :
     lookupKV k (applyWrites ws cfg) = (lastWrite k ws).orElse (fun _ => lookupKV k cfg) := by
   induction ws generalizing cfg with
